@@ -4,6 +4,8 @@ import (
 	"fmt"
 	"go/ast"
 	"go/token"
+	"go/types"
+	"sort"
 	"strings"
 )
 
@@ -126,6 +128,7 @@ func checkC08(c *Ctx, r *Report) {
 	ruleRefill(c, r, "refill-affine")
 	ruleFullRune(c, r, "full-rune")
 	ruleCursorSteps(c, r, "cursor-steps")
+	ruleDiagSites(c, r, "diagnostic-token")
 	ruleLineCalcAdd(c, r, "newline-only")
 	r.rule("emit-prev-pos", 6, "every code byte is written by Prog.write with the position of the previous token; Prog.write appends one byte and one position")
 	checkEmitPrimitives(c, r, "emit-prev-pos")
@@ -153,4 +156,93 @@ func checkC08(c *Ctx, r *Report) {
 	ruleSerialisedSections(c, r, "serialised")
 	ruleUvarintLen(c, r, "varint-length")
 	r.note("the arithmetic of lineColAt (binary search to line/column) — pinned by TestLineCalc, not decided here; textual equality of diagnostics")
+}
+
+// ruleDiagSites: a compile diagnostic is attached to the token that is at fault.
+func ruleDiagSites(c *Ctx, r *Report, rule string) {
+	r.rule(rule, 8, "every diagnostic raised by the statement and expression compilers names the offending token: when the path has just looked at the next token without taking it (a failed match, a check) the diagnostic goes to the current token (errorAtCurrent: position and text of the unexpected token, 'at end' at the end of input); when it has just consumed a token (match succeeded, consume, advance, a sub-expression) and objects to what it got, it goes to the previous token (error)")
+	m, err := c.emitModel()
+	if err != nil {
+		r.bad(rule, "model", err.Error(), "")
+		return
+	}
+	type agg struct {
+		at   string
+		last map[string]bool
+		fn   string
+	}
+	sites := map[token.Pos]*agg{}
+	var order []token.Pos
+	for _, s := range m.ErrSites {
+		a := sites[s.Pos]
+		if a == nil {
+			a = &agg{at: s.At, last: map[string]bool{}, fn: s.Fn}
+			sites[s.Pos] = a
+			order = append(order, s.Pos)
+		}
+		a.last[s.LastTok] = true
+	}
+	sort.Slice(order, func(i, j int) bool { return order[i] < order[j] })
+	seenKey := map[string]int{}
+	for _, pos := range order {
+		a := sites[pos]
+		key := c.diagSiteKey(pos, seenKey)
+		want := ""
+		switch {
+		case a.last["peeked"] && !a.last["consumed"]:
+			want = "current"
+		case a.last["consumed"] && !a.last["peeked"]:
+			want = "prev"
+		case a.last["consumed"] && a.last["peeked"]:
+			// one call serves both kinds of path: whichever token it names, it is the wrong one on some path
+			want = map[string]string{"prev": "current", "current": "prev"}[a.at] + " (on some paths)"
+		}
+		switch {
+		case a.at == "":
+			r.undecided(rule, key, "the token this diagnostic is attached to is not recognised", c.pos(pos))
+		case want == "" || want == a.at:
+			r.ok(rule, key, fmt.Sprintf("attached to the %s token; the path had %v", a.at, sortedKeys(a.last)))
+		default:
+			r.bad(rule, key, fmt.Sprintf("the diagnostic is attached to the %s token although a path reaching it had just %s the token stream: it must name the %s token", a.at, map[string]string{"current": "looked at (not consumed from)", "prev": "consumed from"}[strings.TrimSuffix(want, " (on some paths)")], want), c.pos(pos))
+		}
+	}
+}
+
+// diagSiteKey names a diagnostic call by its function and message: "bindStmt/expected bind target…".
+func (c *Ctx) diagSiteKey(pos token.Pos, seen map[string]int) string {
+	fn, msg := "?", ""
+	for _, it := range c.sortedDecls() {
+		if it.fd.Body == nil || pos < it.fd.Pos() || pos > it.fd.End() {
+			continue
+		}
+		if f, ok := it.obj.(*types.Func); ok {
+			fn = funcName(f)
+		}
+		ast.Inspect(it.fd.Body, func(n ast.Node) bool {
+			call, ok := n.(*ast.CallExpr)
+			if !ok || call.Pos() != pos {
+				return true
+			}
+			for _, a := range call.Args {
+				if k, ok := c.strConst(a); ok && msg == "" {
+					msg = k
+				}
+				if be, ok := stripParens(a).(*ast.BinaryExpr); ok && msg == "" {
+					if k, ok := c.strConst(be.X); ok {
+						msg = k
+					}
+				}
+			}
+			return false
+		})
+	}
+	if len(msg) > 40 {
+		msg = msg[:40]
+	}
+	key := fn + "/" + msg
+	seen[key]++
+	if seen[key] > 1 {
+		key += fmt.Sprintf("#%d", seen[key])
+	}
+	return key
 }
